@@ -54,6 +54,18 @@ fn value_clauses(v: u16) -> Result<(), (&'static str, String)> {
     Ok(())
 }
 
+/// from(a) then from(b): b's rank must be what the model says
+fn pair_sequence(a: u16, b: u16) -> Result<(), String> {
+    std::hint::black_box(HandRank::from(a.wrapping_add(4321)));
+    std::hint::black_box(HandRank::from(a));
+    let r = HandRank::from(b);
+    let (mn, mc) = model_text(b);
+    if format!("{:?}", r.name) != mn || format!("{:?}", r.class) != mc || r.value != b {
+        return Err(format!("HandRank::from({}) converted right after from({}) is value {} {:?}/{:?}, the poker class with ordinal {} is {}/{}", b, a, r.value, r.name, r.class, b, mn, mc));
+    }
+    Ok(())
+}
+
 struct A {
     n: u64,
     fail: Option<(Vec<u32>, String)>,
@@ -213,7 +225,7 @@ fn hands<const N: usize>(run: &mut Run, stratum: u64, ranks: &[HandRank]) -> PRe
 }
 
 pub fn run(run: &mut Run) -> PResult {
-    run.rule = "all 65,536 values through HandRank::from / determine_name / determine_class / is_invalid / is_a_valid_hand_rank, compared as text with the category and class the model derives for the poker class of that ordinal; all enum variants (each non-Invalid variant must label one contiguous non-empty value range); all 5- and 6-card subsets and (quick: 1-in-8 stratum / thorough: all) 7-card subsets through hand_rank() and hand_rank_validated(). Non-trivial values = those not at either end of their class range (the suite pins ends); distinct = distinct values / subsets".into();
+    run.rule = "all 65,536 values through HandRank::from / determine_name / determine_class / is_invalid / is_a_valid_hand_rank, compared as text with the category and class the model derives for the poker class of that ordinal; all enum variants (each non-Invalid variant must label one contiguous non-empty value range); all 5-card subsets in all 120 slot orders, all 6-card subsets and (quick: 1-in-8 stratum / thorough: all) 7-card subsets in ascending, descending and one seeded slot order through hand_rank() and hand_rank_validated(). Non-trivial values = those not at either end of their class range (the suite pins ends); distinct = distinct values / subsets".into();
     run.assume("enum variants are compared by their Debug text against the documented spellings (Trey, Deuce, ...): renaming a variant is meant to be reported");
     super::regress::replay_dir(run, "C06", check_case)?;
     // values
@@ -240,6 +252,46 @@ pub fn run(run: &mut Run) -> PResult {
     }
     if HandRank::default() != HandRank::from(0) {
         run.violation("C06.default", "default", json!({"value": 0}), "HandRank::default() differs from HandRank::from(0)")?;
+    }
+    if !run.is_twin() {
+        // conversion must not depend on the previous conversion: every ordered pair (a, b), a converted
+        // immediately before b; expected[b] was compared with the model's text above
+        use rayon::prelude::*;
+        let expected: Vec<HandRank> = (0..=u16::MAX).map(HandRank::from).collect();
+        for v in 0..=u16::MAX {
+            let (mn, mc) = model_text(v);
+            let e = expected[v as usize];
+            if format!("{:?}", e.name) != mn || format!("{:?}", e.class) != mc || e.value != v {
+                return run.violation("C06.sequence", &format!("{}->{}", v.wrapping_sub(1), v), json!({"a": v.wrapping_sub(1), "b": v}), &format!("HandRank::from({}) converted right after from({}) is {:?}/{:?}, expected {}/{}", v, v.wrapping_sub(1), e.name, e.class, mn, mc));
+            }
+        }
+        let all = run.tier == Tier::Thorough;
+        // class boundaries: first and last value of every class, and their neighbours
+        let mut boundary: Vec<u16> = Vec::new();
+        for v in 1..=7463u16 {
+            if expected[v as usize].class != expected[v as usize - 1].class {
+                boundary.extend([v - 1, v]);
+            }
+        }
+        boundary.dedup();
+        let bad = (0..65536usize).into_par_iter().find_map_first(|b| {
+            // predecessors of b: every value (thorough) or the values a key, mask or range test
+            // would plausibly conflate with b, plus every class boundary (quick)
+            let partners: Vec<u16> = if all { (0..=u16::MAX).collect() } else { engine::u16_partners(b as u16).into_iter().chain(boundary.iter().copied().filter(|_| b % 64 == 0 || boundary.binary_search(&(b as u16)).is_ok())).collect() };
+            for a in partners {
+                std::hint::black_box(HandRank::from(a));
+                if HandRank::from(b as u16) != expected[b] {
+                    return Some((a as usize, b));
+                }
+            }
+            None
+        });
+        let npairs: u64 = if all { 1 << 32 } else { 65536 * 60 + (65536 / 64 + boundary.len() as u64) * boundary.len() as u64 };
+        run.generator(if all { "all ordered pairs of values, converted back to back" } else { "related ordered pairs of values, converted back to back" }, "exhaustive (histories of length 2)", Some(1 << 32), npairs, npairs, "from(a) immediately followed by from(b), b's rank compared with the model-checked expectation; quick: a ranges over bit flips, offsets, shifts, truncations of b and the class boundaries; thorough: every a");
+        if let Some((a, b)) = bad {
+            let m = pair_sequence(a as u16, b as u16).err().unwrap_or_else(|| format!("HandRank::from({}) gave a wrong rank right after from({}) during the parallel sweep; the two-call sequence does not reproduce on its own", b, a));
+            return run.violation("C06.sequence", &format!("{}->{}", a, b), json!({"a": a, "b": b}), &m);
+        }
     }
     // variants: every non-Invalid class labels one contiguous, non-empty range; same for names
     let classes: Vec<HandRankClass> = HandRankClass::iter().collect();
@@ -292,6 +344,7 @@ pub fn run(run: &mut Run) -> PResult {
 pub fn check_case(clause: &str, case: &Value) -> Result<(), String> {
     match clause {
         "C06.hand" => hand_clause(&engine::parse_words(&case["words"])?),
+        "C06.sequence" => pair_sequence(case["a"].as_u64().ok_or("a")? as u16, case["b"].as_u64().ok_or("b")? as u16),
         "C06.default" => {
             if HandRank::default() != HandRank::from(0) {
                 Err("HandRank::default() differs from HandRank::from(0)".into())
